@@ -368,10 +368,11 @@ def run_special(chk, seed, corr_lines):
             except Exception as e:  # noqa: BLE001
                 chk.violation(cid, f"raised {type(e).__name__}", payload)
                 continue
-            fails, _ = invariants(A, v, q, t, n, dtype, "eigstart", 1, True)
-            fails = [f for f in fails if not f.startswith("count")]
+            fails, cols = invariants(A, v, q, t, n, dtype, "eigstart", 1, True)
             if fails:
-                chk.violation(cid, "start vector is an eigenvector (beta_0 ~ 0, never tested before the loop): " + "; ".join(fails[:3]), payload)
+                chk.violation(cid, "start vector is an eigenvector (beta_0 ~ 0): a single column q_0, T = [q_0.A q_0] is expected: " + "; ".join(fails[:3]), payload)
+            elif dtype == F64:
+                corr_lines.append((cid, "ok", cols[0][2], cols[0][3], f"lz {n} {n} d {fmat(A.to(F64))} {fvec(v.to(F64)[:, 0])}", dict(payload, dtype=dt)))
     for dt in ("f64", "f32"):
         dtype = DT[dt]
         for batch in ((), (2,)):
@@ -390,6 +391,90 @@ def run_special(chk, seed, corr_lines):
             fails, _ = invariants(A, v, q, t, 3, dtype, "fullrank", 1, False)
             if fails:
                 chk.violation(cid, "1x1 operator: " + "; ".join(fails[:3]), payload)
+
+
+def run_mixed(chk, seed, corr_lines):
+    """>= 2 start vectors of DIFFERENT Krylov dimensions in one call: column 0 lies in a 2-dimensional invariant
+    subspace, column 1 (and 2) is generic.  The loop may only stop when ALL columns are exhausted: the generic
+    column must still deliver Q T Qt = A at max_iter = n, and root_inv_decomposition(initial_vectors=...) must
+    reproduce the inverse."""
+    from linear_operator import settings
+    from linear_operator.operators import DenseLinearOperator
+    from linear_operator.utils.lanczos import lanczos_tridiag
+    sizes = (4, 6) if chk.tier == "quick" else (3, 4, 6, 9)
+    for n in sizes:
+        for batch in ((), (2,), (2, 2)):
+            for order in ("deficient-first", "deficient-last"):
+                for p in (2, 3):
+                    base = f"n={n}/b={'x'.join(map(str, batch)) or '-'}/{order}/p={p}/f64"
+                    g = gen_for(seed, "mixed/" + base)
+                    A, _ = make_A(g, "fullrank", n, batch)
+                    w, V = torch.linalg.eigh(A)
+                    cdef = 0 if order == "deficient-first" else p - 1
+                    v = torch.randn(*batch, n, p, generator=g, dtype=F64)
+                    coef = 1.0 + torch.rand(*batch, 2, generator=g, dtype=F64)
+                    v[..., :, cdef] = coef[..., 0:1] * V[..., :, 0] + coef[..., 1:2] * V[..., :, n - 1]
+                    payload = {"kind": "mixed", "seed": seed, "cell": base}
+                    # ---- lanczos_tridiag itself
+                    cid = f"C09/lanczos/mixedkrylov/{base}"
+                    chk.case(cid)
+                    chk.count("family=mixedkrylov")
+                    try:
+                        q, t = lanczos_tridiag(lambda x: A @ x, n, dtype=F64, device=A.device, matrix_shape=A.shape[-2:],
+                                               batch_shape=A.shape[:-2], init_vecs=v)
+                    except Exception as e:  # noqa: BLE001
+                        chk.violation(cid, f"raised {type(e).__name__}: {str(e)[:100]}", payload)
+                        continue
+                    m = q.shape[-1]
+                    fails = []
+                    if tuple(q.shape) != (p, *batch, n, m) or tuple(t.shape) != (p, *batch, m, m):
+                        fails.append(f"shapes {tuple(q.shape)} {tuple(t.shape)}")
+                    elif m != n:
+                        fails.append(f"count {m}: the loop stopped although a generic start vector has Krylov dimension {n}")
+                    else:
+                        eye = torch.eye(n, dtype=F64)
+                        for c in range(p):
+                            Qc, Tc = q[c], t[c]
+                            tag = "deficient" if c == cdef else "generic"
+                            if c != cdef:
+                                if not (torch.isfinite(Qc).all() and torch.isfinite(Tc).all()):
+                                    fails.append(f"column {c} ({tag}): non-finite")
+                                    continue
+                                e1 = (Qc.mT @ Qc - eye).abs().max().item()
+                                e2 = (Qc.mT @ A @ Qc - Tc).abs().max().item()
+                                e3 = (Qc @ Tc @ Qc.mT - A).abs().max().item()
+                                e4 = (A @ Qc - Qc @ Tc)[..., :, : n - 1].abs().max().item()
+                                if max(e1, e2, e3, e4) > 1e-7:
+                                    fails.append(f"column {c} ({tag}): QtQ-I={e1:.1e} QtAQ-T={e2:.1e} QTQt-A={e3:.1e} AQ-QT={e4:.1e}")
+                            else:
+                                # the exhausted column: its first two vectors span the invariant subspace
+                                Q2, T2 = Qc[..., :, :2], Tc[..., :2, :2]
+                                e1 = (Q2.mT @ Q2 - torch.eye(2, dtype=F64)).abs().max().item()
+                                e2 = (Q2.mT @ A @ Q2 - T2).abs().max().item()
+                                e3 = (A @ Q2 - Q2 @ T2).abs().max().item()
+                                if not (e1 < 1e-7 and e2 < 1e-7 and e3 < 1e-6):
+                                    fails.append(f"column {c} ({tag}): leading 2 columns QtQ-I={e1:.1e} QtAQ-T={e2:.1e} AQ-QT={e3:.1e}")
+                            v0 = v[..., :, c] / v[..., :, c].norm(dim=-1, keepdim=True)
+                            if (Qc[..., :, 0] - v0).abs().max().item() > 1e-9:
+                                fails.append(f"column {c}: q_0 is not v/|v|")
+                    if fails:
+                        chk.violation(cid, "; ".join(fails[:3]), payload)
+                    elif batch == () and n <= 6:
+                        gcol = 1 if cdef == 0 else 0
+                        corr_lines.append((cid, "ok", q[gcol], t[gcol], f"lz {n} {n} d {fmat(A)} {fvec(v[:, gcol])}", dict(payload, dtype="f64")))
+                    # ---- root_inv_decomposition with these initial vectors
+                    cid = f"C09/post/root_inv[mixedkrylov]/{base}"
+                    chk.case(cid)
+                    tv = torch.randn(*batch, n, 2, generator=g, dtype=F64)
+                    try:
+                        with settings.max_root_decomposition_size(n):
+                            R = DenseLinearOperator(A).root_inv_decomposition(initial_vectors=v, test_vectors=tv, method="lanczos").root.to_dense()
+                    except Exception as e:  # noqa: BLE001
+                        chk.violation(cid, f"raised {type(e).__name__}: {str(e)[:100]}", payload)
+                        continue
+                    e = (R @ R.mT @ A - torch.eye(n, dtype=F64)).abs().max().item()
+                    if not e < 1e-4:
+                        chk.violation(cid, f"(R Rt) A - I = {e:.2e}: no probe reproduced the inverse although a generic initial vector spans the whole space", payload)
 
 
 # ------------------------------------------------------------------------------------------------ layer C
@@ -459,6 +544,15 @@ def run_ops(chk, seed, post_lines):
                     if fam != "fullrank":
                         A64 = A64 + 0.5 * torch.eye(n, dtype=F64)  # positive definite, Krylov dimension unchanged
                     todo.append((f"Dense[{fam}]", n, batch, dt, (lambda A=A64, dt=dt: DenseLinearOperator(A.to(DT[dt]))), A64, dim))
+                # symmetric with one clearly negative eigenvalue: negative Ritz values are masked (value 1, zero vector)
+                g = gen_for(seed, f"ops/indef/{n}/{batch}/{dt}")
+                A64, dim = make_A(g, "fullrank", n, batch)
+                w_, V_ = torch.linalg.eigh(A64)
+                w_ = w_.clone()
+                w_[..., 0] = -1.5
+                A64 = (V_ * w_.unsqueeze(-2)) @ V_.mT
+                A64 = (A64 + A64.mT) / 2
+                todo.append(("Dense[indef]", n, batch, dt, (lambda A=A64, dt=dt: DenseLinearOperator(A.to(DT[dt]))), A64, None))
                 if (n == sizes[0] or chk.tier != "quick") and batch == ():
                     # integer-valued catalogue instances: unbatched only (exact breakdowns of one column of a
                     # multi-column call are a separate, known hazard), separated spectra only
@@ -474,6 +568,8 @@ def run_ops(chk, seed, post_lines):
             m_max = n + 2 if budget == "full" else max(2, n // 2)
             for what in ("root", "root_inv", "root_inv[probes]", "diag"):
                 if what == "root_inv[probes]" and dim is None:
+                    continue
+                if name == "Dense[indef]" and (what != "root" and what != "diag"):
                     continue
                 cid = f"C09/post/{what}/{name}/n={n}/b={'x'.join(map(str, batch)) or '-'}/budget={budget}/{dt}"
                 payload = {"kind": "ops", "seed": seed, "cell": cid}
@@ -533,6 +629,8 @@ def run_ops(chk, seed, post_lines):
                 Tj = jittered(td, jit)
                 comp, w = pos_part(Tj)
                 target = qd @ comp @ qd.mT  # p,*b,n,n
+                if name == "Dense[indef]" and budget == "full":
+                    chk.count("post_masked_ritz=" + ("yes" if bool((w < 0).any()) else "no"))
                 m = qd.shape[-1]
                 full = m == n
                 if what == "root":
@@ -541,7 +639,7 @@ def run_ops(chk, seed, post_lines):
                     if e > tol * scale:
                         chk.violation(cid, f"R Rt differs from Q (T+jI)+ Qt by {e:.2e}", payload)
                         continue
-                    if full:
+                    if full and name != "Dense[indef]":
                         e = (rr - Af).abs().max().item()
                         if e > (tol + 10 * jit) * scale * 4:
                             chk.violation(cid, f"full Krylov dimension: R Rt - A = {e:.2e}", payload)
@@ -594,7 +692,7 @@ def run_ops(chk, seed, post_lines):
                         if e > tol:
                             chk.violation(cid, f"diagonalization: eigenvectors not orthonormal ({e:.2e})", payload)
                             continue
-                    if full:
+                    if full and name != "Dense[indef]":
                         e = (rec - Af).abs().max().item()
                         if e > (tol + 10 * jit) * scale * 4:
                             chk.violation(cid, f"full Krylov dimension: V diag(e) Vt - A = {e:.2e}", payload)
@@ -653,16 +751,36 @@ def run_slq(chk, seed):
             e = max((ld - ld_ref).abs().max().item(), (tr - tr_ref).abs().max().item())
             if e > 1e-7:
                 chk.violation(cid, f"SLQ estimate differs from (n/p) Σ uᵀ f(A) u by {e:.2e}", payload)
-            # masking: a negative Ritz value becomes 1 with a zero eigenvector
-            tm = t.clone()
-            tm[..., 0, 0] = -5.0
-            ev2, V2 = lanczos_tridiag_to_diag(tm.clone())
-            w2, U2 = torch.linalg.eigh(tm)
-            neg = w2 < 0
-            ok = torch.equal(ev2[neg], torch.ones_like(ev2[neg])) and bool((V2.mT[neg] == 0).all()) \
-                and torch.allclose(ev2[~neg], w2[~neg]) and bool(neg.any())
-            if not ok:
-                chk.violation(cid.replace("to_dense", "mask"), "lanczos_tridiag_to_diag: negative Ritz values must become 1 with a zeroed eigenvector", payload)
+            # masking, directly against torch.linalg.eigh: a negative Ritz value becomes 1 and its eigenvector COLUMN is zeroed
+            for variant, shift in (("one-negative", None), ("several-negative", 2.5), ("none-negative", 0.0)):
+                for dt2 in (F64, F32):
+                    tm = t.clone()
+                    if shift is None:
+                        tm[..., 0, 0] = -5.0
+                    else:
+                        tm = tm - shift * torch.eye(n, dtype=F64)
+                    tm = tm.to(dt2)
+                    mcid = f"C09/to_diag/mask[{variant}]/n={n}/b={'x'.join(map(str, batch)) or '-'}/{'f64' if dt2 == F64 else 'f32'}"
+                    chk.case(mcid)
+                    chk.count("to_diag=" + variant)
+                    ev2, V2 = lanczos_tridiag_to_diag(tm.clone())
+                    w2, U2 = torch.linalg.eigh(tm.cpu())
+                    keep = w2 >= 0
+                    exp_ev = torch.where(keep, w2, torch.ones_like(w2))
+                    exp_V = U2 * keep.to(U2.dtype).unsqueeze(-2)
+                    bad = []
+                    if not torch.equal(ev2, exp_ev):
+                        bad.append("eigenvalues (negative ones must become 1, the others stay)")
+                    if not torch.equal(V2, exp_V):
+                        bad.append("eigenvectors (the COLUMNS of negative Ritz values must be zeroed, everything else unchanged)")
+                    if variant != "none-negative" and bool(keep.all()):
+                        bad.append("test input has no negative Ritz value")
+                    rec = (V2 * ev2.unsqueeze(-2)) @ V2.mT
+                    pos = (U2 * w2.clamp_min(0).unsqueeze(-2)) @ U2.mT
+                    if (rec - pos).abs().max().item() > (1e-9 if dt2 == F64 else 1e-3):
+                        bad.append("V diag(e) Vt is not the positive part of T")
+                    if bad:
+                        chk.violation(mcid, "lanczos_tridiag_to_diag vs torch.linalg.eigh: " + "; ".join(bad), payload)
 
 
 # ------------------------------------------------------------------------------------------------ entry points
@@ -695,6 +813,7 @@ def run(chk):
         for rep in range(reps):
             run_lanczos_cell(chk, seed, *cell, corr_lines, rep=rep)
     run_special(chk, seed, corr_lines)
+    run_mixed(chk, seed, corr_lines)
     run_ops(chk, seed, post_lines)
     run_slq(chk, seed)
     check_corr(chk, corr_lines)
@@ -725,6 +844,9 @@ def replay(chk, payload):
         check_corr(chk, corr)
     elif p["kind"] == "special":
         run_special(chk, seed, corr)
+        check_corr(chk, corr)
+    elif p["kind"] == "mixed":
+        run_mixed(chk, seed, corr)
         check_corr(chk, corr)
     elif p["kind"] == "ops":
         run_ops(chk, seed, post)
